@@ -80,6 +80,10 @@ def _stream(rng: random.Random, uni: list, n: int) -> list:
             i = (len(out) // 3) % len(uni)
         c = 1 if rng.random() < 0.8 else rng.randrange(0, 6)
         out.append([i, c])
+    if out and rng.random() < 0.08:
+        # weighted adds far beyond machine-word counters
+        for _ in range(rng.randrange(1, 4)):
+            out[rng.randrange(len(out))][1] = rng.choice([2**31, 2**32 + 1, 2**63, 2**64 - 1, 2**64 + 5, 10**20])
     return out
 
 
@@ -417,6 +421,10 @@ def gen_tdigest(rng: random.Random, tier: str) -> dict:
         else:
             v = 3.5
         vals.append([v, 1 if rng.random() < 0.85 else rng.randrange(1, 5)])
+    if vals and rng.random() < 0.3:
+        # a few very heavy samples (pre-aggregated input), in arbitrary value order
+        for _ in range(rng.randrange(1, 5)):
+            vals[rng.randrange(len(vals))][1] = rng.choice([50, 200, 250, 1000, 10**6])
     return {
         "kind": "tdigest",
         "values": vals,
@@ -551,11 +559,20 @@ def run_reservoir(case: dict) -> Result:
 def gen_merkle(rng: random.Random, tier: str) -> dict:
     n = rng.choice([0, 1, 2, 3, 4, 5, 7, 8, 9, 16, 33])
     keys = _dedupe([rng.choice(["k", "key", "a", "z", ""]) + str(rng.randrange(0, 40)) for _ in range(n)])
-    vdom = rng.choice(["int", "int", "mixed"])
+    vdom = rng.choice(["int", "int", "mixed", "struct"])
+
+    STRUCT = [
+        ["<tuple>", 3, 1, 4], [3, 1, 4], ["<tuple>"], [], ["<dict>", [[1, "x"]]], ["<dict>", [["1", "x"]]], ["<dict>", [[None, 0]]],
+        ["<dict>", [["null", 0]]], ["<tuple>", ["<tuple>", 1], 2], [[1], 2], "[3, 1, 4]", "(3, 1, 4)",
+    ]
 
     def val():
         # tombstones / placeholders are ordinary values (no bool / float: 1 == 1.0 == True would alias)
-        return rng.randrange(0, 5) if vdom == "int" else rng.choice([None, None, "", "v", 0, 3, "None"])
+        if vdom == "int":
+            return rng.randrange(0, 5)
+        if vdom == "struct":
+            return rng.choice(STRUCT)
+        return rng.choice([None, None, "", "v", 0, 3, "None"])
 
     a = {k: val() for k in keys}
     b = dict(a)
@@ -565,7 +582,12 @@ def gen_merkle(rng: random.Random, tier: str) -> dict:
         if op == "change" and b:
             k = rng.choice(sorted(b))
             old = b[k]
-            b[k] = (old + 1 + rng.randrange(3)) if vdom == "int" else rng.choice([x for x in [None, "", "v", 0, 3, "None"] if x != old or type(x) is not type(old)])
+            if vdom == "int":
+                b[k] = old + 1 + rng.randrange(3)
+            elif vdom == "struct":
+                b[k] = rng.choice([x for x in STRUCT if x != old])
+            else:
+                b[k] = rng.choice([x for x in [None, "", "v", 0, 3, "None"] if x != old or type(x) is not type(old)])
         elif op == "add":
             k = rng.choice(["k", "a", "zz", "0", "m"]) + str(rng.randrange(40, 80))
             b[k] = val()
@@ -583,7 +605,19 @@ def run_merkle(case: dict) -> Result:
 
     res = Result()
     comp = "MerkleTree"
-    a, b = case["a"], case["b"]
+
+    def dec(v):
+        # JSON encoding of structured values: ["<tuple>", ...] is a tuple, ["<dict>", [[k, v], ...]] a dict
+        if isinstance(v, list):
+            if v[:1] == ["<tuple>"]:
+                return tuple(dec(x) for x in v[1:])
+            if v[:1] == ["<dict>"]:
+                return {k: dec(x) for k, x in v[1]}
+            return [dec(x) for x in v]
+        return v
+
+    a = {k: dec(v) for k, v in case["a"].items()}
+    b = {k: dec(v) for k, v in case["b"].items()}
     ta = MerkleTree.build(a)
     if case["via_update"] == "from-empty":
         # maintained key by key from an empty tree, in an arbitrary order, some keys written twice
